@@ -45,7 +45,7 @@ func moduleAdjacency(p *Program, keep func(*ssa.Function) bool) map[*ssa.Functio
 			for _, ed := range en.Out {
 				c := ed.Callee.Func
 				if p.InModule(c) {
-					if keep(c) && !seen[c] && p.mayCallBack(f, c) {
+					if keep(c) && !seen[c] && p.mayCallBackMode(f, c, false) {
 						seen[c] = true
 						out = append(out, c)
 					}
